@@ -200,18 +200,45 @@ def run(ctx):
     prev_text = None
     for _ in range(rounds):
         text, comps = gen_changelog(rng)
-        for form in ("str", "lines", "lines+nl", "str, allow_empty_author", "bytes", "text file object"):
+        import io
+        latin = None
+        try:
+            latin = text.encode("latin-1")
+        except UnicodeEncodeError:
+            pass
+        for form in ("str", "lines", "lines+nl", "str, allow_empty_author", "bytes", "text file object", "binary file object",
+                     "list of UTF-8 bytes lines", "latin-1 bytes lines, parse_changelog(encoding='latin-1') on a default object",
+                     "utf-8 bytes lines, parse_changelog(encoding='utf-8') on a latin-1 object"):
             src = text if form.startswith("str") else (text.split("\n")[:-1] if form == "lines" else text.splitlines(True))
             if form == "bytes":
                 src = text.encode("utf-8")
             elif form == "text file object":
-                import io
                 src = io.StringIO(text)
+            elif form == "binary file object":
+                src = io.BytesIO(text.encode("utf-8"))
+            elif form == "list of UTF-8 bytes lines":
+                src = [l.encode("utf-8") for l in text.splitlines(True)]
+            elif form.startswith("latin-1") and latin is None:
+                continue
             try:
                 with warnings.catch_warnings():
                     warnings.simplefilter("error")
-                    cl = real.Changelog(src, strict=True, **({"allow_empty_author": True} if "allow" in form else {}))
+                    if form.startswith("latin-1"):
+                        cl = real.Changelog()
+                        cl.parse_changelog(latin.splitlines(True), strict=True, encoding="latin-1")
+                    elif form.startswith("utf-8 bytes lines"):
+                        cl = real.Changelog(encoding="latin-1")
+                        cl.parse_changelog([l.encode("utf-8") for l in text.splitlines(True)], strict=True, encoding="utf-8")
+                    else:
+                        cl = real.Changelog(src, strict=True, **({"allow_empty_author": True} if "allow" in form else {}))
                 out = str(cl)
+                # the other ways of writing the changelog out give the same text
+                fh = io.StringIO()
+                cl.write_to_open_file(fh)
+                if fh.getvalue() != out:
+                    raise AssertionError("write_to_open_file() wrote %r, str() gives %r" % (fh.getvalue(), out))
+                if not form.endswith("object") and "parse_changelog" not in form and bytes(cl) != out.encode("utf-8"):
+                    raise AssertionError("bytes() differs from str().encode('utf-8')")
             except Exception as e:
                 t.failed("strict parsing of a well-formed changelog raised / warned: %r" % (e,), text=text, form=form)
                 break
